@@ -108,6 +108,12 @@ func (t *ProcessorTask) Do(ctx context.Context, b *Batch) error {
 	}
 	t.metrics.Observe(len(recsOut), start)
 
+	if len(recsOut) > len(recsIn) {
+		// More results than inputs cannot be attributed to records: marking them
+		// would index past the batch (Nack/Filter/SplitRecord panic). Refuse the
+		// reply, exactly as RunnableProcessor does for conditional processors.
+		return cerrors.Errorf("processor returned more records than input (%d > %d)", len(recsOut), len(recsIn))
+	}
 	if len(recsIn) > len(recsOut) {
 		// Processor skipped some records, append empty records, so that we can
 		// mark them to be retried.
